@@ -82,6 +82,20 @@ def hostile_source(rng, n, tag, via_header=None):
     else:
         ls.append(f"#define HOSTILE_{tag} {pay}")
         cond = f"HOSTILE_{tag}"
+    deep = rng.random() < 0.25
+    if deep:
+        # very long / deeply nested conditions around the hostile macro (evaluators that
+        # recurse over the expression may take a different path when they run out of stack)
+        n = rng.choice([150, 600, 1100, 1300, 2500])
+        shape = rng.randrange(4)
+        if shape == 0:
+            cond = " + ".join(["1"] * n) + " + " + cond
+        elif shape == 1:
+            cond = cond + " || " + " || ".join(["0"] * n)
+        elif shape == 2:
+            cond = "(" * min(n, 180) + cond + ")" * min(n, 180)
+        else:
+            cond = " && ".join(["1"] * n) + " && !(" + cond + ")"
     if style == 0:
         ls += [f"#if {cond}", f"module a_{tag}", "end module", "#endif"]
     elif style == 1:
@@ -184,12 +198,23 @@ def gen_sched(g):
     for _ in range(rng.randint(4, 14)):
         li = rng.randrange(len(lines))
         ch = rng.randint(0, len(lines[li]))
-        ops.append(gen.positional(rid(), rng.choice(gen.POSITIONAL_METHODS), name, li, ch))
+        ops.append(gen.positional(rid(), rng.choice(gen.POSITIONAL_METHODS), name, li, ch, rng=rng))
     ops.append(gen.req(rid(), "workspace/symbol", {"query": ""}))
     if rng.random() < 0.5:
         ops += [gen.did_close(name)]
     ops += [gen.req(rid(), "shutdown"), gen.note("exit")]
-    return {"argv": argv, "tree": tree, "ops": ops, "sync_kind": 2, "strict_edits": False,
+    # failures inside the indexer while hostile text is being handled: error paths must not
+    # write or execute either
+    bugs = []
+    if rng.random() < 0.3:
+        for k, op in enumerate(ops):
+            if op["k"] == "msg" and op["m"].get("method") in ("textDocument/didChange", "textDocument/didSave",
+                                                              "textDocument/didOpen") and rng.random() < 0.5:
+                bugs.append({"target": rng.choice(["FortranFile.parse", "FortranFile.preprocess",
+                                                   "FortranAST.resolve_links", "FortranFile.check_file"]),
+                             "op": k, "nth": 0, "exc": rng.choice(["ValueError", "RecursionError", "KeyError",
+                                                                   "MemoryError", "TypeError"])})
+    return {"argv": argv, "tree": tree, "ops": ops, "sync_kind": 2, "strict_edits": False, "buggify": bugs,
             "canaries": sorted(set(canaries)), "network": network, "release_version": release,
             "delivery": delivery, "hostile_conditions": nhost,
             "pool": {"assign": [rng.randrange(3) for _ in range(2)]},
